@@ -12,7 +12,11 @@ written, specialised to the header signature and to variants that hold a value o
 
 Mirrored as written:
   * `marshal()`: for every (complete type, value): padding `pad[tcode](startByte)`, then the
-    per-type marshaller at the padded offset; it returns `(startByte - bstart, chunks)`;
+    per-type marshaller at the padded offset; it returns `(startByte - bstart, chunks)`.  Since repair
+    bf83351 (C10-03) `marshal()` raises MarshallingError when the number of values differs from the number
+    of complete types; the header call passes exactly 7 values for `yyyyuua(yv)` and exactly 2 per `(yv)`
+    (`[code, hval]`), so neither check can fire here - the fixed arities are in the shape of
+    `marshalHeader` / `marshalStructYV`;
   * per-type marshallers return `(nbytes, chunks)` where `nbytes` is computed separately from the
     chunks (`4 + len(var) + 1`, `2 + len(var)`, ...) - the model keeps both;
   * `marshal_variant`: `sigFromPy(var)` (model of C19), `marshal_signature`, padding for
